@@ -643,8 +643,11 @@ func (stub *stub) Configure(ctx context.Context, req *api.ConfigureRequest) (rpl
 	stub.registrationTimeout = time.Duration(req.RegistrationTimeout * int64(time.Millisecond))
 	stub.requestTimeout = time.Duration(req.RequestTimeout * int64(time.Millisecond))
 
+	// The result belongs to the session this request arrived in, even if the
+	// stub has been restarted by the time the handler returns.
+	cfgErrC := stub.cfgErrC
 	defer func() {
-		stub.cfgErrC <- retErr
+		cfgErrC <- retErr
 	}()
 
 	if handler := stub.handlers.Configure; handler == nil {
